@@ -69,6 +69,13 @@ CHECKS = {
     text="The property is the functional dependency request -> text. TLC exhausts FAPipeline.tla over histories of <= 4 requests (leaky designs are negative controls), enumerates every sequence of length 3 over 8 cheap requests and samples length-40 sequences over the full alphabet (every (function, signature) of trace_arguments for python/numpy/cpp/stablehlo/xla_client/lax, debug=1 variants, user-defined composites that expand one definition several times, same-context repeats, the apmath lax requests); each history runs in a child forked from a warm interpreter, one interpreter per hash seed, plus forward/reverse/shuffled full passes; the trace spec rejects any request answered with two different texts (or exception messages).",
     note="Trusted: TLC, sha256, os.fork isolation of process-global state. Scope: fresh Context per request (as results/update.py) and one request repeated in one context; different functions traced into one shared context are not judged. Seeds: 3 (quick) / 12 (thorough).",
     design="6/C09"),
+
+ "C17": dict(
+    category="model_checking",
+    technique="TLA+ spec ArgReduce.tla (reconstruction relations over BigInt with enclosures of ln 2 and pi that TLC proves from series) with TLC; TLC-enumerated input-shape classes and exhaustive float16 driven through the real reductions; (k, r, c/t, witness N) events validated by Trace_ArgReduce.tla",
+    text="ln 2 in [L, L+2^-300] and pi in [P, P+2^-1300] are proved inside TLA+ (atanh and Machin series with explicit tail bounds), so no multiprecision library is trusted; each recorded reduction is judged exactly against both ends of the enclosure: k integral, remainder range, and reconstruction to within 1 ULP (10 for float16), with the multiple N of 2 pi logged as a witness and verified. float16 exhaustive; float32/64 neighbours of every k ln2, (k+1/2) ln2, k pi/2, continued-fraction worst cases per binade, the pi/4 switch, edges, plus log-uniform samples.",
+    note="Trusted: TLC, BigInt/IEEE. Recon leniency: real-line and lattice readings must both fail. Known findings (bounded classes verified as weaker inequalities in TLA+, float16 listed per input): the 2/pi table is cut at the smallest subnormal (wrong remainder for large |x| near multiples of pi/2, all dtypes) and the double-word remainder loses up to ~4 ulp when |r| < 2^(4-p).",
+    design="6/C17"),
 }
 NA_REASON = "not built yet in this round (see DESIGN.md section 10 build order); no check is registered, nothing is claimed"
 
